@@ -14,13 +14,14 @@ LEVEL = "model_checking"
 CODE = ["yowsup/layers/*/protocolentities/*.py: <Entity>.fromProtocolTreeNode / toProtocolTreeNode / __init__ (every class listed in coverage.cases)",
         "yowsup/structs/protocolentity.py", "yowsup/structs/protocoltreenode.py"]
 BOUNDS = {"quick": "one template per documented stanza shape; every non-discriminator attribute an unconstrained non-empty string or non-negative integer; "
-                   "repeated list children 0,1,2(as documented),3; binary data of symbolic length 0..4096 where the class only stores it",
+                   "repeated list children 0,1,2(as documented),3; binary data of symbolic length 0..4096 where the class only stores it; 32-bit number blobs (registration ids) symbolic; "
+                   "media message stanzas of 8 kinds x optional-field families with every payload field a solver variable",
           "thorough": "same (the space is covered by the symbolic values; thorough adds list length 5 and the data-blob variant for every class)"}
 OUTSIDE = ["attribute values that are empty strings (the codec cannot carry them, see C01)", "list children beyond 5",
            "optional attributes are present/absent only as in the documented shapes and the hand-written templates",
            "classes listed under coverage.not_encodable with the reason"]
 ASSUMPTIONS = ["dispatch discriminators (type, xmlns, class, mediatype, ...) keep their documented value inside a template",
-               "the protobuf payload of message stanzas is opaque here (C10 covers the converter)"]
+               "the protobuf payload of fixture message stanzas is opaque (C10 covers the converter); the media-stanza cases build payloads with the independent reference mapping ref/e2e_ref.py over a descriptor-generated protobuf stub"]
 EXPLANATION = "symbolic execution of each entity class's parser and serialiser on a stanza template with solver-variable fields; equality discharged by z3"
 
 REPO = os.environ.get("YOWSUP_REPO", "/repo")
